@@ -404,6 +404,7 @@ def _small(ctx, params):
                         out = f"{type(e).__name__}"
                         ok = False
                     ctx.evals()
+                    ctx.bulk_distinct(1)
                     ctx.count("small.decided")
                     if exp:
                         ctx.count("small.expected_accept")
